@@ -89,6 +89,7 @@ type ConcInfo struct {
 	Namespace string            `json:"namespace"`
 	Names     map[string]string `json:"names"`
 	Statuses  map[string]string `json:"statuses"`
+	Revs      map[string]int    `json:"revs"` // abstract revision -> concrete revision number
 	Big       bool              `json:"big"`
 }
 
